@@ -7,7 +7,10 @@ import (
 	"errors"
 	"io"
 
+	"filippo.io/age/internal/format"
 	V "filippo.io/age/internal/zzverif"
+	"golang.org/x/crypto/chacha20poly1305"
+	"golang.org/x/crypto/curve25519"
 )
 
 // ---------------------------------------------------------------------------
@@ -396,9 +399,6 @@ func Harness_C06_roles() {
 	w.Write(P)
 	V.Assert(w.Close() == nil, "Close failed")
 	V.Reach("encrypted")
-	if !V.Symbolic() {
-		return
-	}
 	draws := V.Draws()[before:]
 	V.Assert(len(seen) == 1 && len(seen[0]) == 16, "recipient did not see one 16-byte file key")
 	fk := indexOfSame(seen[0], draws)
@@ -408,6 +408,62 @@ func Harness_C06_roles() {
 	V.Assert(nk >= 0, "the payload nonce is not a CSPRNG draw used as it is")
 	V.Assert(nk != fk, "file key and payload nonce are the same draw")
 	used := map[int]bool{fk: true, nk: true}
+	nNative := 1
+	if len(recips) == 3 {
+		nNative = 2
+	}
+	c := V.ChunkSize()
+	chunks := (len(P) + c - 1) / c
+	if chunks == 0 {
+		chunks = 1
+	}
+	if !V.Symbolic() {
+		// native replay: the engine's call logs do not exist; the same facts
+		// are observed on the output. Every X25519 share in the header must be
+		// X25519(d, basepoint) for an otherwise unused 32-byte draw d, and
+		// chunk k must open under the nonce counter k || final flag.
+		hdr, _, perr := format.Parse(bytes.NewReader(file.Bytes()))
+		V.Assert(perr == nil, "written header does not parse")
+		nEph := 0
+		for _, st := range hdr.Recipients {
+			if st.Type != "X25519" || len(st.Args) != 1 {
+				continue
+			}
+			nEph++
+			found := -1
+			for k, d := range draws {
+				if len(d) != 32 || used[k] {
+					continue
+				}
+				share, _ := curve25519.X25519(d, curve25519.Basepoint)
+				if refB64(share) == st.Args[0] {
+					found = k
+				}
+			}
+			V.Assert(found >= 0, "an ephemeral secret is not a CSPRNG draw used as it is")
+			used[found] = true
+		}
+		V.Assert(nEph == nNative, "not exactly one ephemeral secret per native stanza")
+		a, _ := chacha20poly1305.New(refKDF(seen[0], nonce, "payload"))
+		body := file.Bytes()[headerLen+16:]
+		for k := 0; k < chunks; k++ {
+			n := make([]byte, 12)
+			n[10], n[9] = byte(k), byte(k>>8)
+			sz := c + 16
+			if k == chunks-1 {
+				n[11] = 1
+				sz = len(body)
+			}
+			V.Assert(len(body) >= sz, "fewer seals than chunks")
+			if len(body) < sz {
+				return
+			}
+			_, oerr := a.Open(nil, n, body[:sz], nil)
+			V.Assert(oerr == nil, "chunk nonce is not counter || final flag")
+			body = body[sz:]
+		}
+		return
+	}
 	scalars := V.BaseScalars()
 	nEph := 0
 	for _, sc := range scalars {
@@ -420,18 +476,9 @@ func Harness_C06_roles() {
 		V.Assert(!used[k], "an ephemeral secret shares its draw with another secret")
 		used[k] = true
 	}
-	nNative := 1
-	if len(recips) == 3 {
-		nNative = 2
-	}
 	V.Assert(nEph == nNative, "not exactly one ephemeral secret per native stanza")
 	V.Assert(V.WeakDraws() == 0, "a non-cryptographic generator was consulted")
 	// chunk nonces: seals under the stream key are the last ones in the log
-	c := V.ChunkSize()
-	chunks := (len(P) + c - 1) / c
-	if chunks == 0 {
-		chunks = 1
-	}
 	nonces := V.SealNonces()
 	keys := V.SealKeys()
 	V.Assert(len(nonces) >= chunks, "fewer seals than chunks")
@@ -445,6 +492,49 @@ func Harness_C06_roles() {
 		V.Assert(bytes.Equal(nonces[first+k], want), "chunk nonce is not counter || final flag")
 		V.Assert(V.Same(keys[first+k], keys[first]), "chunks sealed under different keys")
 	}
+}
+
+// Harness_C06_scrypt_roles: a passphrase file: file key, salt and payload
+// nonce are three separate CSPRNG draws used as they are.
+func Harness_C06_scrypt_roles() {
+	V.InstallTape()
+	sr := &ScryptRecipient{password: V.Bytes("pw", 2), workFactor: 1}
+	P := V.Bytes("P", V.Int("n", 0, 1))
+	var file bytes.Buffer
+	w, err := Encrypt(&file, sr)
+	V.Assert(err == nil, "Encrypt failed")
+	if err != nil {
+		return
+	}
+	headerLen := file.Len() - 16
+	w.Write(P)
+	V.Assert(w.Close() == nil, "Close failed")
+	V.Reach("encrypted")
+	draws := V.Draws()
+	nonce := file.Bytes()[headerLen : headerLen+16]
+	nk := indexOfSame(nonce, draws)
+	V.Assert(nk >= 0, "the payload nonce is not a CSPRNG draw used as it is")
+	const notDraw = "the scrypt salt is not a CSPRNG draw of its own"
+	if V.Symbolic() {
+		salts := V.ScryptSalts()
+		V.Assert(len(salts) == 1 && len(salts[0]) == len(scryptLabel)+16, "unexpected scrypt salt input")
+		if len(salts) != 1 || len(salts[0]) != len(scryptLabel)+16 {
+			return
+		}
+		sk := indexOfSame(salts[0][len(scryptLabel):], draws)
+		V.Assert(sk >= 0 && sk != nk, notDraw)
+		V.Assert(V.WeakDraws() == 0, "a non-cryptographic generator was consulted")
+		return
+	}
+	hdr, _, perr := format.Parse(bytes.NewReader(file.Bytes()))
+	V.Assert(perr == nil && len(hdr.Recipients) == 1 && len(hdr.Recipients[0].Args) == 2, "written header does not parse")
+	found := -1
+	for k, d := range draws {
+		if len(d) == 16 && k != nk && refB64(d) == hdr.Recipients[0].Args[0] {
+			found = k
+		}
+	}
+	V.Assert(found >= 0, notDraw)
 }
 
 // Harness_C06_two_files: two encryptions in one process share no draw.
@@ -577,10 +667,6 @@ func Harness_C10_workfactor() {
 	st := &Stanza{Type: "scrypt", Args: []string{"AAAAAAAAAAAAAAAAAAAAAA", string(w)}, Body: V.Bytes("body", 32)}
 	fk, err := id.Unwrap([]*Stanza{st})
 	V.Reach("returned")
-	if !V.Symbolic() {
-		return
-	}
-	work := V.ScryptWork()
 	// reference: canonical positive decimal
 	canon := wl > 0
 	val := 0
@@ -593,10 +679,17 @@ func Harness_C10_workfactor() {
 			val = val*10 + int(c-'0')
 		}
 	}
+	const ran = "key derivation ran for a non-canonical or too large work factor"
 	if !canon || val > max {
-		V.Assert(len(work) == 0, "key derivation ran for a non-canonical or too large work factor")
+		if V.Symbolic() {
+			V.Assert(len(V.ScryptWork()) == 0, ran)
+		}
+		// output-level form of the same fact (used by the native replay): the
+		// incorrect-identity error is only produced after the key derivation
+		V.Assert(!errors.Is(err, ErrIncorrectIdentity), ran)
 		V.Assert(fk == nil && err != nil, "bad work factor was not rejected")
-	} else {
+	} else if V.Symbolic() {
+		work := V.ScryptWork()
 		V.Assert(len(work) == 1 && work[0] == 1<<uint(val), "key derivation did not run with N = 2^workfactor")
 	}
 }
